@@ -56,6 +56,7 @@ def main(argv=None):
 
     n_runs = 0
     n_viol = 0
+    executed = []  # worlds this process has executed so far, in order (its process history)
     seen_clauses, shrunk_clauses = set(), set()
     samples = []
     sample_faulted = None
@@ -108,6 +109,8 @@ def main(argv=None):
                 clause = V[0]["clause"]
                 mini, evals = (world, 0)
                 n_viol += 1
+                line["clause"] = clause
+                emit(dict(line, provisional=True))  # survives a kill during shrinking / fresh-process replay
                 seen_clauses.add(clause)
                 # shrink and write replay files for the first few violations (and the first of each
                 # new clause) only: a badly broken tree fails thousands of runs
@@ -119,6 +122,14 @@ def main(argv=None):
                         mini, evals = shrink(spec, spec.prepare_for_shrink(world, result), clause)
                     except Exception:  # noqa: BLE001
                         mini, evals = world, -1
+                prefix, fresh_note, fresh_digest = [], "not verified in a fresh process", None
+                if not a.no_shrink and full and a.replay_dir and time.monotonic() - t0 < a.soft * 2.5:
+                    try:
+                        from sim import fresh
+
+                        mini, prefix, fresh_note, fresh_digest = fresh.settle_replay(a.prop, clause, mini, world, executed)
+                    except Exception as e:  # noqa: BLE001
+                        fresh_note = f"fresh-process verification failed to run: {type(e).__name__}"
                 replay = {
                     "property": a.prop,
                     "tier": a.tier,
@@ -131,11 +142,13 @@ def main(argv=None):
                     "original_world": world,
                     "shrink_evals": evals,
                     "repo": core.repo_identity(),
+                    "prefix_worlds": prefix,
+                    "fresh_process": fresh_note,
                 }
                 try:
                     res_m = spec.run(mini)
                     Vm, _, _ = spec.oracle(mini, res_m)
-                    replay["digest"] = spec.digest(res_m)
+                    replay["digest"] = fresh_digest or spec.digest(res_m)
                     replay["detail_minimised"] = next((v["detail"] for v in Vm if v["clause"] == clause), None)
                     replay["trace"] = spec.sample_view(mini, res_m, {}, "replay")
                 except Exception:  # noqa: BLE001
@@ -149,6 +162,7 @@ def main(argv=None):
                 line["clause"] = clause
                 line["world_min"] = mini
             emit(line)
+            executed.append(world)
             n_runs += 1
             if nt and len(samples) < 2:
                 samples.append(spec.sample_view(world, result, P, mode))
